@@ -582,6 +582,8 @@ func msgCategory(m string) string {
 		return "invalid"
 	case strings.HasPrefix(m, "declaration "):
 		return "declaration"
+	case strings.HasPrefix(m, "return outside"):
+		return "return"
 	case strings.HasSuffix(m, "as integer"):
 		return "badint"
 	case strings.HasSuffix(m, "as float"):
